@@ -15,17 +15,20 @@ Classes == {"Circle", "Ellipse", "Sphere", "Ellipsoid", "Polygon", "ConvexPolygo
 VARIABLES row, phase
 vars == <<row, phase>>
 
-\* a row of the table: type string (or missing), dimensionality argument, whether a rounding radius is present,
-\* whether the vertex cycle is convex (only meaningful for Polygon)
-Rows == [type : Types, dims : {2, 3}, rounded : BOOLEAN, convex : BOOLEAN]
+\* a row of the table: type string (or missing), dimensionality argument, the rounding radius (absent, or present with a
+\* positive, zero or negative value: a key that is PRESENT selects the rounded class whatever its value, and the rounded
+\* class refuses a negative radius), whether the vertex cycle is convex (only meaningful for Polygon)
+Rows == [type : Types, dims : {2, 3}, rounding : {"absent", "positive", "zero", "negative"}, convex : BOOLEAN]
 
 Expected(r) ==
     CASE r.type = "missing" -> "ValueError"
       [] r.type = "Sphere" -> IF r.dims = 2 THEN "Circle" ELSE "Sphere"
       [] r.type = "Ellipsoid" -> IF r.dims = 2 THEN "Ellipse" ELSE "Ellipsoid"
-      [] r.type = "Polygon" -> IF r.rounded THEN (IF r.convex THEN "ConvexSpheropolygon" ELSE "ValueError")
+      [] r.type = "Polygon" -> IF r.rounding # "absent"
+                               THEN (IF r.convex /\ r.rounding # "negative" THEN "ConvexSpheropolygon" ELSE "ValueError")
                                ELSE IF r.convex THEN "ConvexPolygon" ELSE "Polygon"
-      [] r.type = "ConvexPolyhedron" -> IF r.rounded THEN "ConvexSpheropolyhedron" ELSE "ConvexPolyhedron"
+      [] r.type = "ConvexPolyhedron" -> IF r.rounding = "absent" THEN "ConvexPolyhedron"
+                                        ELSE IF r.rounding = "negative" THEN "ValueError" ELSE "ConvexSpheropolyhedron"
       [] r.type = "Mesh" -> "Polyhedron"
       [] OTHER -> "ValueError"                      \* unknown type strings (also wrong capitalisation)
 
@@ -42,8 +45,11 @@ GsdKeys(c) == CASE c \in {"Circle", "Sphere"} -> {"type", "diameter"}
                 [] c = "Polyhedron" -> {"type", "vertices", "indices"}
 \* class that must come back from from_gsd_type_shapes(shape.gsd_shape_spec, GsdDims): the same class
 \* (a Polygon with a convex cycle comes back as the more specific ConvexPolygon: same polygon)
-RoundTripClass(c, convexCycle) ==
-    Expected([type |-> GsdType(c), dims |-> GsdDims(c), rounded |-> ("rounding_radius" \in GsdKeys(c)), convex |-> convexCycle])
+\* rzero: the shape's rounding radius is exactly 0 when exported (the setters allow it); it is still a rounded shape
+RoundTripClass(c, convexCycle, rzero) ==
+    Expected([type |-> GsdType(c), dims |-> GsdDims(c),
+              rounding |-> IF "rounding_radius" \in GsdKeys(c) THEN (IF rzero THEN "zero" ELSE "positive") ELSE "absent",
+              convex |-> convexCycle])
 \* what GSD does not carry (documented loss): the centre of curved shapes and the normal of planar ones
 GsdLoses(c) == IF c \in {"Circle", "Ellipse", "Sphere", "Ellipsoid"} THEN {"centre"}
                ELSE IF c \in {"Polygon", "ConvexPolygon", "ConvexSpheropolygon"} THEN {"normal"} ELSE {}
@@ -61,20 +67,20 @@ HoomdKeys(c) == CASE c \in {"Polygon", "ConvexPolygon"} -> {"vertices", "centroi
 Init == row \in Rows /\ phase = "row"
 \* after the table rows, the round-trip actions per class
 Next == /\ phase = "row" /\ phase' = "roundtrip"
-        /\ row' \in [cls : Classes, convex : BOOLEAN]
+        /\ row' \in [cls : Classes, convex : BOOLEAN, rzero : BOOLEAN]
 Spec == Init /\ [][Next]_vars
 
 \* T1: every exported spec is accepted by the importer and yields the exporting class (or its convex refinement)
 T1_RoundTripAccepted == phase = "roundtrip" =>
     LET c == row.cls  conv == IF c = "Polygon" THEN row.convex ELSE TRUE
-        back == RoundTripClass(c, conv) IN
+        back == RoundTripClass(c, conv, row.rzero) IN
     /\ back # "ValueError"
     /\ back = c \/ (c = "Polygon" /\ conv /\ back = "ConvexPolygon")
 
 Record == IF phase = "row" THEN [k |-> "gsdrow", row |-> row, expected |-> Expected(row)]
-          ELSE [k |-> "roundtrip", cls |-> row.cls, convex |-> row.convex,
+          ELSE [k |-> "roundtrip", cls |-> row.cls, convex |-> row.convex, rzero |-> row.rzero,
                 gsdtype |-> GsdType(row.cls), dims |-> GsdDims(row.cls), keys |-> GsdKeys(row.cls),
-                back |-> RoundTripClass(row.cls, IF row.cls = "Polygon" THEN row.convex ELSE TRUE),
+                back |-> RoundTripClass(row.cls, IF row.cls = "Polygon" THEN row.convex ELSE TRUE, row.rzero),
                 loses |-> GsdLoses(row.cls), hoomd |-> HoomdKeys(row.cls)]
 Emit == PrintT(ToJson(Record))
 =============================================================================
